@@ -4,225 +4,271 @@
 use crate::hlib::*;
 use konst::{slice, string};
 
-const H: usize = 5;
-const N: usize = 3;
 
-harness! {
-    /// kind=bounded tier=quick bound="hay<=5 bytes, needle<=3 bytes, all byte values"
-    #[kani::unwind(8)]
-    fn c04_bytes_find(s) {
-        let h: [u8; H] = s.bytes();
-        let n: [u8; N] = s.bytes();
-        let hl = s.upto(H);
-        let nl = s.upto(N);
-        let (hay, nee) = (&h[..hl], &n[..nl]);
-        let r = slice::bytes_find(hay, nee);
-        let e = ref_find(hay, nee);
-        chk!(s, r == e, "C04.bytes_find.first_occurrence");
-        chk!(s, nl != 0 || r == Some(0), "C04.bytes_find.empty_pattern_matches_at_0");
-        chk!(s, slice::bytes_contain(hay, nee) == e.is_some(), "C04.bytes_contain.iff_occurs");
-        cov!(s, nl == 3 && e == Some(1), "C04.cover.found_at_1");
-        cov!(s, nl > 0 && e.is_none(), "C04.cover.absent");
-    }
-}
-
-harness! {
-    /// kind=bounded tier=quick bound="hay<=5 bytes, needle 1..=3 bytes, all byte values"
-    #[kani::unwind(8)]
-    fn c04_bytes_rfind(s) {
-        let h: [u8; H] = s.bytes();
-        let n: [u8; N] = s.bytes();
-        let hl = s.upto(H);
-        let nl = s.upto(N);
-        s.assume(nl > 0);
-        let (hay, nee) = (&h[..hl], &n[..nl]);
-        let r = slice::bytes_rfind(hay, nee);
-        let e = ref_rfind(hay, nee);
-        chk!(s, r == e, "C04.bytes_rfind.last_occurrence");
-        chk!(s, slice::bytes_rcontain(hay, nee) == e.is_some(), "C04.bytes_rcontain.iff_occurs");
-        cov!(s, nl == 3 && e == Some(1), "C04.cover.rfound_at_1");
-    }
-}
-
-harness! {
-    /// kind=bounded tier=quick bound="hay<=5 bytes, needle<=3 bytes, all byte values"
-    #[kani::unwind(8)]
-    fn c04_bytes_find_skip_keep(s) {
-        let h: [u8; H] = s.bytes();
-        let n: [u8; N] = s.bytes();
-        let hl = s.upto(H);
-        let nl = s.upto(N);
-        let (hay, nee) = (&h[..hl], &n[..nl]);
-        let e = ref_find(hay, nee);
-        let sk = slice::bytes_find_skip(hay, nee);
-        let kp = slice::bytes_find_keep(hay, nee);
-        match e {
-            None => {
-                chk!(s, sk.is_none(), "C04.bytes_find_skip.none_iff_absent");
-                chk!(s, kp.is_none(), "C04.bytes_find_keep.none_iff_absent");
-            }
-            Some(p) => {
-                // documented: an empty needle returns the input unchanged
-                let skip_to = if nl == 0 { 0 } else { p + nl };
-                chk!(s, match sk { Some(x) => is_subslice_at(hay, x, skip_to, hl), None => false },
-                     "C04.bytes_find_skip.suffix_after_first");
-                chk!(s, match kp { Some(x) => is_subslice_at(hay, x, p, hl), None => false },
-                     "C04.bytes_find_keep.suffix_from_first");
+macro_rules! t_c04_bytes_find {
+    ($name:ident, $h:literal, $n:literal, $u:literal) => {
+        harness! {
+            /// kind=bounded tier=quick bound="hay<=4 bytes, needle<=3 bytes (non-empty for reverse search), all byte values"
+            #[kani::unwind($u)]
+            fn $name(s) {
+                let h: [u8; $h] = s.bytes();
+                let n: [u8; $n] = s.bytes();
+                let hl = s.upto($h);
+                let nl = s.upto($n);
+                let (hay, nee) = (&h[..hl], &n[..nl]);
+                let r = slice::bytes_find(hay, nee);
+                let e = ref_find(hay, nee);
+                chk!(s, r == e, "C04.bytes_find.first_occurrence");
+                chk!(s, nl != 0 || r == Some(0), "C04.bytes_find.empty_pattern_matches_at_0");
+                chk!(s, slice::bytes_contain(hay, nee) == e.is_some(), "C04.bytes_contain.iff_occurs");
+                cov!(s, nl == 3 && e == Some(1), "C04.cover.found_at_1");
+                cov!(s, nl > 0 && e.is_none(), "C04.cover.absent");
             }
         }
-        cov!(s, nl == 2 && e == Some(2), "C04.cover.skip_found");
-    }
+    };
 }
+t_c04_bytes_find! {c04_bytes_find, 4, 3, 15}
+t_c04_bytes_find! {c04_bytes_find_big, 6, 3, 22} // tier=thorough bound="hay<=6 bytes, needle<=3 bytes, all byte values"
 
-harness! {
-    /// kind=bounded tier=quick bound="hay<=5 bytes, needle<=3 bytes, all byte values"
-    #[kani::unwind(8)]
-    fn c04_bytes_rfind_skip_keep(s) {
-        let h: [u8; H] = s.bytes();
-        let n: [u8; N] = s.bytes();
-        let hl = s.upto(H);
-        let nl = s.upto(N);
-        let (hay, nee) = (&h[..hl], &n[..nl]);
-        let sk = slice::bytes_rfind_skip(hay, nee);
-        let kp = slice::bytes_rfind_keep(hay, nee);
-        if nl == 0 {
-            chk!(s, match sk { Some(x) => is_subslice_at(hay, x, 0, hl), None => false },
-                 "C04.bytes_rfind_skip.empty_needle_identity");
-            chk!(s, match kp { Some(x) => is_subslice_at(hay, x, 0, hl), None => false },
-                 "C04.bytes_rfind_keep.empty_needle_identity");
-        } else {
-            match ref_rfind(hay, nee) {
-                None => {
-                    chk!(s, sk.is_none(), "C04.bytes_rfind_skip.none_iff_absent");
-                    chk!(s, kp.is_none(), "C04.bytes_rfind_keep.none_iff_absent");
+macro_rules! t_c04_bytes_rfind {
+    ($name:ident, $h:literal, $n:literal, $u:literal) => {
+        harness! {
+            /// kind=bounded tier=quick bound="hay<=4 bytes, needle<=3 bytes (non-empty for reverse search), all byte values"
+            #[kani::unwind($u)]
+            fn $name(s) {
+                let h: [u8; $h] = s.bytes();
+                let n: [u8; $n] = s.bytes();
+                let hl = s.upto($h);
+                let nl = s.upto($n);
+                s.assume(nl > 0);
+                let (hay, nee) = (&h[..hl], &n[..nl]);
+                let r = slice::bytes_rfind(hay, nee);
+                let e = ref_rfind(hay, nee);
+                chk!(s, r == e, "C04.bytes_rfind.last_occurrence");
+                chk!(s, slice::bytes_rcontain(hay, nee) == e.is_some(), "C04.bytes_rcontain.iff_occurs");
+                cov!(s, nl == 3 && e == Some(1), "C04.cover.rfound_at_1");
+            }
+        }
+    };
+}
+t_c04_bytes_rfind! {c04_bytes_rfind, 4, 3, 15}
+t_c04_bytes_rfind! {c04_bytes_rfind_big, 6, 3, 22} // tier=thorough bound="hay<=6 bytes, needle<=3 bytes, all byte values"
+
+macro_rules! t_c04_bytes_find_skip_keep {
+    ($name:ident, $h:literal, $n:literal, $u:literal) => {
+        harness! {
+            /// kind=bounded tier=quick bound="hay<=4 bytes, needle<=3 bytes (non-empty for reverse search), all byte values"
+            #[kani::unwind($u)]
+            fn $name(s) {
+                let h: [u8; $h] = s.bytes();
+                let n: [u8; $n] = s.bytes();
+                let hl = s.upto($h);
+                let nl = s.upto($n);
+                let (hay, nee) = (&h[..hl], &n[..nl]);
+                let e = ref_find(hay, nee);
+                let sk = slice::bytes_find_skip(hay, nee);
+                let kp = slice::bytes_find_keep(hay, nee);
+                match e {
+                    None => {
+                        chk!(s, sk.is_none(), "C04.bytes_find_skip.none_iff_absent");
+                        chk!(s, kp.is_none(), "C04.bytes_find_keep.none_iff_absent");
+                    }
+                    Some(p) => {
+                        // documented: an empty needle returns the input unchanged
+                        let skip_to = if nl == 0 { 0 } else { p + nl };
+                        chk!(s, match sk { Some(x) => is_subslice_at(hay, x, skip_to, hl), None => false },
+                             "C04.bytes_find_skip.suffix_after_first");
+                        chk!(s, match kp { Some(x) => is_subslice_at(hay, x, p, hl), None => false },
+                             "C04.bytes_find_keep.suffix_from_first");
+                    }
                 }
-                Some(p) => {
-                    chk!(s, match sk { Some(x) => is_subslice_at(hay, x, 0, p), None => false },
-                         "C04.bytes_rfind_skip.prefix_before_last");
-                    chk!(s, match kp { Some(x) => is_subslice_at(hay, x, 0, p + nl), None => false },
-                         "C04.bytes_rfind_keep.prefix_through_last");
+                cov!(s, nl == 2 && e == Some(2), "C04.cover.skip_found");
+            }
+        }
+    };
+}
+t_c04_bytes_find_skip_keep! {c04_bytes_find_skip_keep, 4, 3, 15}
+t_c04_bytes_find_skip_keep! {c04_bytes_find_skip_keep_big, 6, 3, 22} // tier=thorough bound="hay<=6 bytes, needle<=3 bytes, all byte values"
+
+macro_rules! t_c04_bytes_rfind_skip_keep {
+    ($name:ident, $h:literal, $n:literal, $u:literal) => {
+        harness! {
+            /// kind=bounded tier=quick bound="hay<=4 bytes, needle<=3 bytes (non-empty for reverse search), all byte values"
+            #[kani::unwind($u)]
+            fn $name(s) {
+                let h: [u8; $h] = s.bytes();
+                let n: [u8; $n] = s.bytes();
+                let hl = s.upto($h);
+                let nl = s.upto($n);
+                let (hay, nee) = (&h[..hl], &n[..nl]);
+                let sk = slice::bytes_rfind_skip(hay, nee);
+                let kp = slice::bytes_rfind_keep(hay, nee);
+                if nl == 0 {
+                    chk!(s, match sk { Some(x) => is_subslice_at(hay, x, 0, hl), None => false },
+                         "C04.bytes_rfind_skip.empty_needle_identity");
+                    chk!(s, match kp { Some(x) => is_subslice_at(hay, x, 0, hl), None => false },
+                         "C04.bytes_rfind_keep.empty_needle_identity");
+                } else {
+                    match ref_rfind(hay, nee) {
+                        None => {
+                            chk!(s, sk.is_none(), "C04.bytes_rfind_skip.none_iff_absent");
+                            chk!(s, kp.is_none(), "C04.bytes_rfind_keep.none_iff_absent");
+                        }
+                        Some(p) => {
+                            chk!(s, match sk { Some(x) => is_subslice_at(hay, x, 0, p), None => false },
+                                 "C04.bytes_rfind_skip.prefix_before_last");
+                            chk!(s, match kp { Some(x) => is_subslice_at(hay, x, 0, p + nl), None => false },
+                                 "C04.bytes_rfind_keep.prefix_through_last");
+                        }
+                    }
                 }
+                cov!(s, nl == 2 && ref_rfind(hay, nee) == Some(1), "C04.cover.rskip_found");
             }
         }
-        cov!(s, nl == 2 && ref_rfind(hay, nee) == Some(1), "C04.cover.rskip_found");
-    }
+    };
 }
+t_c04_bytes_rfind_skip_keep! {c04_bytes_rfind_skip_keep, 4, 3, 15}
+t_c04_bytes_rfind_skip_keep! {c04_bytes_rfind_skip_keep_big, 6, 3, 22} // tier=thorough bound="hay<=6 bytes, needle<=3 bytes, all byte values"
 
-harness! {
-    /// kind=bounded tier=quick bound="valid UTF-8 string<=5 bytes, &str pattern<=3 bytes"
-    #[kani::unwind(8)]
-    fn c04_str_find_strpat(s) {
-        let hs = BStr::<5>::any(s);
-        let ps = BStr::<3>::any(s);
-        let (h, p) = (hs.as_str(), ps.as_str());
-        let e = ref_find(h.as_bytes(), p.as_bytes());
-        chk!(s, string::find(h, p) == e, "C04.string_find.str.first_occurrence");
-        chk!(s, string::contains(h, p) == e.is_some(), "C04.string_contains.str");
-        if p.len() > 0 {
-            let er = ref_rfind(h.as_bytes(), p.as_bytes());
-            chk!(s, string::rfind(h, p) == er, "C04.string_rfind.str.last_occurrence");
-            chk!(s, string::rcontains(h, p) == er.is_some(), "C04.string_rcontains.str");
-        }
-        cov!(s, p.len() == 3 && p.as_bytes()[0] >= 0xE0 && e == Some(2), "C04.cover.str_multibyte_found");
-    }
-}
-
-harness! {
-    /// kind=bounded tier=quick bound="valid UTF-8 string<=6 bytes, char pattern (any char)"
-    #[kani::unwind(8)]
-    fn c04_str_find_charpat(s) {
-        let hs = BStr::<6>::any(s);
-        let c = s.char();
-        let h = hs.as_str();
-        let mut tmp = [0u8; 4];
-        let p: &str = c.encode_utf8(&mut tmp);
-        let e = ref_find(h.as_bytes(), p.as_bytes());
-        let er = ref_rfind(h.as_bytes(), p.as_bytes());
-        chk!(s, string::find(h, c) == e, "C04.string_find.char.first_occurrence");
-        chk!(s, string::rfind(h, c) == er, "C04.string_rfind.char.last_occurrence");
-        chk!(s, string::contains(h, c) == e.is_some(), "C04.string_contains.char");
-        chk!(s, string::rcontains(h, c) == e.is_some(), "C04.string_rcontains.char");
-        cov!(s, p.len() == 4 && e == Some(2), "C04.cover.char4_found");
-    }
-}
-
-harness! {
-    /// kind=bounded tier=quick bound="valid UTF-8 string<=5 bytes, &str pattern<=3 bytes"
-    #[kani::unwind(8)]
-    fn c04_str_find_skip_keep(s) {
-        let hs = BStr::<5>::any(s);
-        let ps = BStr::<3>::any(s);
-        let (h, p) = (hs.as_str(), ps.as_str());
-        let (hb, pl) = (h.as_bytes(), p.len());
-        let e = ref_find(hb, p.as_bytes());
-        let sk = string::find_skip(h, p);
-        let kp = string::find_keep(h, p);
-        match e {
-            None => {
-                chk!(s, sk.is_none() && kp.is_none(), "C04.string_find_skip_keep.none_iff_absent");
-            }
-            Some(at) => {
-                let skip_to = if pl == 0 { 0 } else { at + pl };
-                chk!(s, match sk { Some(x) => is_subslice_at(hb, x.as_bytes(), skip_to, hb.len()), None => false },
-                     "C04.string_find_skip.suffix_after_first");
-                chk!(s, match kp { Some(x) => is_subslice_at(hb, x.as_bytes(), at, hb.len()), None => false },
-                     "C04.string_find_keep.suffix_from_first");
-            }
-        }
-        let rsk = string::rfind_skip(h, p);
-        let rkp = string::rfind_keep(h, p);
-        if pl > 0 {
-            match ref_rfind(hb, p.as_bytes()) {
-                None => {
-                    chk!(s, rsk.is_none() && rkp.is_none(), "C04.string_rfind_skip_keep.none_iff_absent");
+macro_rules! t_c04_str_find_strpat {
+    ($name:ident, $h:literal, $n:literal, $u:literal) => {
+        harness! {
+            /// kind=bounded tier=quick bound="valid UTF-8 string<=4 bytes, &str pattern<=2 bytes"
+            #[kani::unwind($u)]
+            fn $name(s) {
+                let hs = BStr::<$h>::any(s);
+                let ps = BStr::<$n>::any(s);
+                let (h, p) = (hs.as_str(), ps.as_str());
+                let e = ref_find(h.as_bytes(), p.as_bytes());
+                chk!(s, string::find(h, p) == e, "C04.string_find.str.first_occurrence");
+                chk!(s, string::contains(h, p) == e.is_some(), "C04.string_contains.str");
+                if p.len() > 0 {
+                    let er = ref_rfind(h.as_bytes(), p.as_bytes());
+                    chk!(s, string::rfind(h, p) == er, "C04.string_rfind.str.last_occurrence");
+                    chk!(s, string::rcontains(h, p) == er.is_some(), "C04.string_rcontains.str");
                 }
-                Some(at) => {
-                    chk!(s, match rsk { Some(x) => is_subslice_at(hb, x.as_bytes(), 0, at), None => false },
-                         "C04.string_rfind_skip.prefix_before_last");
-                    chk!(s, match rkp { Some(x) => is_subslice_at(hb, x.as_bytes(), 0, at + pl), None => false },
-                         "C04.string_rfind_keep.prefix_through_last");
-                }
+                cov!(s, p.len() == 2 && p.as_bytes()[0] >= 0xC2 && e == Some(2), "C04.cover.str_multibyte_found");
             }
         }
-        cov!(s, pl == 2 && e == Some(1), "C04.cover.str_skip_found");
-    }
+    };
 }
+t_c04_str_find_strpat! {c04_str_find_strpat, 4, 2, 11}
+t_c04_str_find_strpat! {c04_str_find_strpat_big, 5, 3, 18} // tier=thorough bound="valid UTF-8 string<=5 bytes, &str pattern<=3 bytes"
 
-harness! {
-    /// kind=bounded tier=quick bound="valid UTF-8 string<=5 bytes, &str delimiter<=3 bytes"
-    #[kani::unwind(8)]
-    fn c04_split_once(s) {
-        let hs = BStr::<5>::any(s);
-        let ps = BStr::<3>::any(s);
-        let (h, p) = (hs.as_str(), ps.as_str());
-        let (hb, pl) = (h.as_bytes(), p.len());
-        let r = string::split_once(h, p);
-        match ref_find(hb, p.as_bytes()) {
-            None => chk!(s, r.is_none(), "C04.split_once.none_iff_absent"),
-            Some(at) => chk!(s, match r {
-                    Some((a, b)) => is_subslice_at(hb, a.as_bytes(), 0, at)
-                        && is_subslice_at(hb, b.as_bytes(), at + pl, hb.len()),
-                    None => false,
-                }, "C04.split_once.around_first"),
-        }
-        if pl > 0 {
-            let rr = string::rsplit_once(h, p);
-            match ref_rfind(hb, p.as_bytes()) {
-                None => chk!(s, rr.is_none(), "C04.rsplit_once.none_iff_absent"),
-                Some(at) => chk!(s, match rr {
-                        Some((a, b)) => is_subslice_at(hb, a.as_bytes(), 0, at)
-                            && is_subslice_at(hb, b.as_bytes(), at + pl, hb.len()),
-                        None => false,
-                    }, "C04.rsplit_once.around_last"),
+macro_rules! t_c04_str_find_charpat {
+    ($name:ident, $h:literal, $u:literal) => {
+        harness! {
+            /// kind=bounded tier=quick bound="valid UTF-8 string<=5 bytes, char pattern (any char)"
+            #[kani::unwind($u)]
+            fn $name(s) {
+                let hs = BStr::<$h>::any(s);
+                let c = s.char();
+                let h = hs.as_str();
+                let mut tmp = [0u8; 4];
+                let p: &str = c.encode_utf8(&mut tmp);
+                let e = ref_find(h.as_bytes(), p.as_bytes());
+                let er = ref_rfind(h.as_bytes(), p.as_bytes());
+                chk!(s, string::find(h, c) == e, "C04.string_find.char.first_occurrence");
+                chk!(s, string::rfind(h, c) == er, "C04.string_rfind.char.last_occurrence");
+                chk!(s, string::contains(h, c) == e.is_some(), "C04.string_contains.char");
+                chk!(s, string::rcontains(h, c) == e.is_some(), "C04.string_rcontains.char");
+                cov!(s, p.len() == 3 && e == Some(2), "C04.cover.char4_found");
             }
         }
-        cov!(s, pl > 0 && r.is_some(), "C04.cover.split_once_found");
-    }
+    };
 }
+t_c04_str_find_charpat! {c04_str_find_charpat, 5, 22}
+t_c04_str_find_charpat! {c04_str_find_charpat_big, 6, 26} // tier=thorough bound="valid UTF-8 string<=6 bytes, char pattern (any char)"
+
+macro_rules! t_c04_str_find_skip_keep {
+    ($name:ident, $h:literal, $n:literal, $u:literal) => {
+        harness! {
+            /// kind=bounded tier=quick bound="valid UTF-8 string<=4 bytes, &str pattern<=2 bytes"
+            #[kani::unwind($u)]
+            fn $name(s) {
+                let hs = BStr::<$h>::any(s);
+                let ps = BStr::<$n>::any(s);
+                let (h, p) = (hs.as_str(), ps.as_str());
+                let (hb, pl) = (h.as_bytes(), p.len());
+                let e = ref_find(hb, p.as_bytes());
+                let sk = string::find_skip(h, p);
+                let kp = string::find_keep(h, p);
+                match e {
+                    None => {
+                        chk!(s, sk.is_none() && kp.is_none(), "C04.string_find_skip_keep.none_iff_absent");
+                    }
+                    Some(at) => {
+                        let skip_to = if pl == 0 { 0 } else { at + pl };
+                        chk!(s, match sk { Some(x) => is_subslice_at(hb, x.as_bytes(), skip_to, hb.len()), None => false },
+                             "C04.string_find_skip.suffix_after_first");
+                        chk!(s, match kp { Some(x) => is_subslice_at(hb, x.as_bytes(), at, hb.len()), None => false },
+                             "C04.string_find_keep.suffix_from_first");
+                    }
+                }
+                let rsk = string::rfind_skip(h, p);
+                let rkp = string::rfind_keep(h, p);
+                if pl > 0 {
+                    match ref_rfind(hb, p.as_bytes()) {
+                        None => {
+                            chk!(s, rsk.is_none() && rkp.is_none(), "C04.string_rfind_skip_keep.none_iff_absent");
+                        }
+                        Some(at) => {
+                            chk!(s, match rsk { Some(x) => is_subslice_at(hb, x.as_bytes(), 0, at), None => false },
+                                 "C04.string_rfind_skip.prefix_before_last");
+                            chk!(s, match rkp { Some(x) => is_subslice_at(hb, x.as_bytes(), 0, at + pl), None => false },
+                                 "C04.string_rfind_keep.prefix_through_last");
+                        }
+                    }
+                }
+                cov!(s, pl == 2 && e == Some(1), "C04.cover.str_skip_found");
+            }
+        }
+    };
+}
+t_c04_str_find_skip_keep! {c04_str_find_skip_keep, 4, 2, 11}
+t_c04_str_find_skip_keep! {c04_str_find_skip_keep_big, 5, 3, 18} // tier=thorough bound="valid UTF-8 string<=5 bytes, &str pattern<=3 bytes"
+
+macro_rules! t_c04_split_once {
+    ($name:ident, $h:literal, $n:literal, $u:literal) => {
+        harness! {
+            /// kind=bounded tier=quick bound="valid UTF-8 string<=4 bytes, &str pattern<=2 bytes"
+            #[kani::unwind($u)]
+            fn $name(s) {
+                let hs = BStr::<$h>::any(s);
+                let ps = BStr::<$n>::any(s);
+                let (h, p) = (hs.as_str(), ps.as_str());
+                let (hb, pl) = (h.as_bytes(), p.len());
+                let r = string::split_once(h, p);
+                match ref_find(hb, p.as_bytes()) {
+                    None => chk!(s, r.is_none(), "C04.split_once.none_iff_absent"),
+                    Some(at) => chk!(s, match r {
+                            Some((a, b)) => is_subslice_at(hb, a.as_bytes(), 0, at)
+                                && is_subslice_at(hb, b.as_bytes(), at + pl, hb.len()),
+                            None => false,
+                        }, "C04.split_once.around_first"),
+                }
+                if pl > 0 {
+                    let rr = string::rsplit_once(h, p);
+                    match ref_rfind(hb, p.as_bytes()) {
+                        None => chk!(s, rr.is_none(), "C04.rsplit_once.none_iff_absent"),
+                        Some(at) => chk!(s, match rr {
+                                Some((a, b)) => is_subslice_at(hb, a.as_bytes(), 0, at)
+                                    && is_subslice_at(hb, b.as_bytes(), at + pl, hb.len()),
+                                None => false,
+                            }, "C04.rsplit_once.around_last"),
+                    }
+                }
+                cov!(s, pl > 0 && r.is_some(), "C04.cover.split_once_found");
+            }
+        }
+    };
+}
+t_c04_split_once! {c04_split_once, 4, 2, 11}
+t_c04_split_once! {c04_split_once_big, 5, 3, 18} // tier=thorough bound="valid UTF-8 string<=5 bytes, &str pattern<=3 bytes"
 
 harness! {
     /// kind=bounded tier=quick bound="hay<=4 bytes; pattern kinds [u8;2], [u8], str, char"
-    #[kani::unwind(8)]
+    #[kani::unwind(19)]
     fn c04_pattern_kinds(s) {
         let h: [u8; 4] = s.bytes();
         let hl = s.upto(4);
@@ -243,7 +289,7 @@ harness! {
 
 harness! {
     /// kind=bounded tier=thorough bound="spec adequacy: ref_find/ref_rfind vs str::find/rfind with char patterns, string<=6 bytes"
-    #[kani::unwind(8)]
+    #[kani::unwind(27)]
     fn c04_spec_vs_std(s) {
         let hs = BStr::<6>::any(s);
         let c = s.char();
@@ -257,8 +303,8 @@ harness! {
 
 harness! {
     /// kind=bounded tier=thorough bound="hay<=7 bytes, needle<=4 bytes, all byte values"
-    #[kani::unwind(10)]
-    fn c04_bytes_find_big(s) {
+    #[kani::unwind(31)]
+    fn c04_bytes_find_huge(s) {
         let h: [u8; 7] = s.bytes();
         let n: [u8; 4] = s.bytes();
         let hl = s.upto(7);
